@@ -50,6 +50,20 @@ def b(x) -> str:
     return "1" if x else "0"
 
 
+NODE_KINDS = ["computer", "server", "printer", "router", "switch", "firewall"]
+
+
+def node_class(kind: str):
+    """the Node subclass registered for a config `type` (same `Node` code underneath; different system software)"""
+    import primaite.simulator.network.hardware.nodes.host.computer  # noqa: F401
+    import primaite.simulator.network.hardware.nodes.host.server  # noqa: F401
+    import primaite.simulator.network.hardware.nodes.network.firewall  # noqa: F401
+    import primaite.simulator.network.hardware.nodes.network.router  # noqa: F401
+    import primaite.simulator.network.hardware.nodes.network.switch  # noqa: F401
+    from primaite.simulator.network.hardware.base import Node
+    return Node._registry[kind]
+
+
 # ------------------------------------------------------------------------------------------ implementation side
 class Impl:
     """The real objects of one case."""
@@ -69,11 +83,14 @@ class Impl:
             return
         nd = case["node"]
         self.sim = Simulation()
-        cfg = dict(type="computer", hostname=HOST, ip_address="192.168.1.2", subnet_mask="255.255.255.0",
-                   start_up_duration=nd["start"], shut_down_duration=nd["shut"], node_scan_duration=nd["scan"])
+        kind = nd.get("kind", "computer")
+        cfg = dict(type=kind, hostname=HOST, start_up_duration=nd["start"], shut_down_duration=nd["shut"],
+                   node_scan_duration=nd["scan"])
+        if kind in ("computer", "server", "printer"):
+            cfg.update(ip_address="192.168.1.2", subnet_mask="255.255.255.0")
         if nd.get("initial", "ON") != "ON":
             cfg["operating_state"] = nd["initial"]
-        self.node = Computer.from_config(cfg)
+        self.node = node_class(kind).from_config(cfg)
         self.sim.network.add_node(self.node)
         if case.get("db"):
             # a backup server next to the node, so that DatabaseService.restore_backup can run for real
@@ -108,6 +125,7 @@ class Impl:
             self.db_backup_ok = bool(svc.backup_database())
             if dbf is not None:
                 dbf.health_status = FileSystemItemHealthStatus[case["db"].get("health", "GOOD")]
+            self._watch_restore(svc)
         fs = self.node.file_system
         # drop the folders that installing software created unless the case lists them (keeps the case self-describing):
         # they are kept; the case generator names its own folders differently. Record every folder / file object by name.
@@ -120,6 +138,25 @@ class Impl:
                 f.health_status = FileSystemItemHealthStatus[fi["health"]]
         self._index()
         self.t = 0
+
+    def _watch_restore(self, svc):
+        """in-process wrapper around this service's `restore_backup` (instance attribute, shadows the method): records what the
+        network did, which the model takes as an input - was a leftover download cleared, did a copy arrive and how healthy is
+        it. Tree-independent: derived from object identities before / after the call."""
+        self.restores: List[Tuple[bool, Optional[str], bool]] = []
+        orig = svc.restore_backup
+        fs = self.node.file_system
+
+        def restore_backup():
+            left = fs.get_file("downloads", "database.db")
+            ok = bool(orig())
+            now = fs.get_file("downloads", "database.db")
+            pre = left is not None and left.deleted
+            arrived = now is not None and (now is not left or ok)
+            self.restores.append((pre, now.health_status.name if arrived else None, ok))
+            return ok
+
+        svc.__dict__["restore_backup"] = restore_backup
 
     def _index(self):
         """model order of the items: creation order; objects are tracked by identity (names may repeat once items are created
@@ -154,6 +191,10 @@ class Impl:
         for name, d in case.get("sysfix", {}).items():
             if name in self.node.software_manager.software:
                 self.node.software_manager.software[name].config.fixing_duration = d
+        svc = self.node.software_manager.software.get("database-service")
+        if svc is not None:
+            # a scenario's database server has a real backup server: a completing fix restores the backup inside the timestep
+            self._watch_restore(svc)
         self._index()
 
     # -- canonical state
@@ -200,7 +241,27 @@ class Impl:
             fos.append(f"{fo.name}:{b(fo.deleted)}{mark}:{fo.health_status.name}:{fo.visible_health_status.name}:"
                        f"{fo.scan_countdown}:{fo.restore_countdown}[" + ",".join(files) + "]")
         return (f"P={n.operating_state.name},{c.start_up_countdown},{c.shut_down_countdown},{b(c.is_resetting)},"
-                f"{n.node_scan_countdown} S=" + sw + " F=" + " ".join(fos))
+                f"{n.node_scan_countdown} S=" + sw + " F=" + " ".join(fos) + " V=" + self.view())
+
+    def view(self) -> str:
+        """what the agent sees BY NAME: the visible values in `describe_state()` of the file system (live folders by name, live
+        files by name) and of the installed software (dicts keyed by name, as in `Node.describe_state`)"""
+        n = self.node
+        st = n.file_system.describe_state()
+        vis = {**{s.name: s for s in n.services.values()}, **{a.name: a for a in n.applications.values()}}
+        sw = ",".join(f"{k}={vis[k].health_state_visible.name}" for k in sorted(vis))
+        fos = []
+        tracked = {fo.uuid for fo in self.folders}
+        for F in sorted(st["folders"]):
+            fo = n.file_system.get_folder(F)
+            if fo is None or fo.uuid not in tracked:
+                continue  # a folder written by another node's network traffic during a tick (scenario cases): outside the model
+            known = {x.uuid for x in self.files.get(fo.uuid, [])}
+            fst = st["folders"][F]
+            files = ",".join(f"{f}={self.FsH(fst['files'][f]['visible_status']).name}" for f in sorted(fst["files"])
+                             if getattr(fo.get_file(f), "uuid", None) in known)
+            fos.append(f"{F}={self.FsH(fst['visible_status']).name}[{files}]")
+        return sw + ";" + " ".join(fos)
 
     # -- one operation
     def req(self, *path) -> str:
@@ -231,9 +292,16 @@ class Impl:
     def _apply(self, op: List[str]) -> str:
         k = op[0]
         if k == "tick":
+            n0 = len(getattr(self, "restores", ()))
             self.sim.pre_timestep(self.t)
             self.sim.apply_timestep(self.t)
             self.t += 1
+            done = getattr(self, "restores", [])[n0:]
+            if done:
+                # the database service's fix completed in this timestep and `restore_backup()` ran inside it
+                pre, dl, _ = done[-1]
+                self._lines = [["tickdb", b(pre), dl or "-"]]
+                self._refresh()
             return "ok"
         if k in ("shutdown", "startup", "nodereset"):
             return self.req("reset" if k == "nodereset" else k)
@@ -262,6 +330,15 @@ class Impl:
             return self.req("file_system", "folder", op[1], "delete", op[2])
         if k == "file":
             return self.req("file_system", "folder", op[1], "file", op[2], op[3])
+        if k == "file2":  # the file-system level route to a file's requests; same model operation as `file`
+            self._lines = [["file", op[1], op[2], op[3]]]
+            return self.req("file_system", "file", op[1], op[2], op[3])
+        if k == "folderset":
+            # stand-in for the external writer of a folder's health (database ENCRYPT query marks its folder CORRUPT)
+            for fo in self.folders:
+                if fo.name == op[1]:
+                    fo.health_status = self.FsH[op[2]]
+            return "ok"
         if k == "fsdelfile":
             return self.req("file_system", "delete", "file", op[1], op[2])
         if k == "fsdelfolder":
@@ -310,13 +387,14 @@ class Impl:
             return "ok"
         if k == "dbrestore":  # Python API DatabaseService.restore_backup() (needs the case's backup server)
             svc = self.node.software_manager.software.get("database-service")
-            ok = bool(svc is not None and svc.restore_backup())
-            if ok:
-                dl = self.node.file_system.get_file("downloads", "database.db")
-                self._lines = [["fscreatefile", "downloads", "database.db", "0"],
-                               ["fileset", "downloads", "database.db", dl.health_status.name],
-                               ["dbreplace", "database", "database.db", "downloads"],
-                               ["swset", "database-service", "GOOD"]]
+            n0 = len(self.restores)
+            if svc is not None:
+                svc.restore_backup()
+            done = self.restores[n0:]
+            if done:
+                pre, dl, ok = done[-1]
+                # `DOp.dbRestore` is the file-system side; a successful restore also sets the service GOOD (external write)
+                self._lines = [["dbrestore", b(pre), dl or "-"]] + ([["swset", "database-service", "GOOD"]] if ok else [])
             else:
                 self._lines = [["noop"]]
             return "ok"
@@ -377,12 +455,19 @@ def oracle_step(i: int, op: List[str], prev: dict, cur: dict) -> List[dict]:
             if v != "NONE" and k in ("fscopyfile", "dbrestore"):
                 if not any(pk[1] == key[1] and pv2 == v for (pk, _, pv2) in prev["file"].values()):
                     out.append({"i": i, "op": op, "item": "file:" + "/".join(key), "visible": ["<new>", v], "actual": ["<new>", a]})
+            elif v != "NONE" and k == "tick":
+                # a database restore INSIDE the timestep: the replacement shows what the replaced file showed - which the
+                # node scan of this very timestep may have updated just before (old file's true health at that moment) - or its
+                # own true health if the folder's timed scan completed after the replacement
+                same = [(pa2, pv2) for (pk, pa2, pv2) in prev["file"].values() if pk[1] == key[1]]
+                if not (any(v in (pa2, pv2) for pa2, pv2 in same) or v == a):
+                    out.append({"i": i, "op": op, "item": "file:" + "/".join(key), "visible": ["<new>", v], "actual": ["<new>", a]})
             elif v != "NONE":
                 out.append({"i": i, "op": op, "item": "file:" + "/".join(key), "visible": ["<new>", v], "actual": ["<new>", a]})
             continue
         _, pa, pv = prev["file"][uid]
         if v != pv:
-            legit = (k == "tick") or (k == "file" and (op[1], op[2]) == key and op[3] == "scan")
+            legit = (k == "tick") or (k in ("file", "file2") and (op[1], op[2]) == key and op[3] == "scan")
             if not legit or v not in (a, pa):
                 out.append({"i": i, "op": op, "item": "file:" + "/".join(key), "visible": [pv, v], "actual": [pa, a]})
     for uid, (name, a, v) in cur["folder"].items():
@@ -416,7 +501,9 @@ SYS_APPS = ["web-browser"]  # nmap builds its request manager from scratch (F-12
 
 def gen_case(rng: Rng, max_ops: int = 40) -> dict:
     node = {"start": rng.choice([0, 0, 1, 2]), "shut": rng.choice([0, 1, 1, 2]), "scan": rng.choice(DURS + [-1]),
-            "initial": "ON" if rng.chance(5, 6) else "OFF"}
+            "initial": "ON" if rng.chance(5, 6) else "OFF",
+            # same Node code, different system software: hosts, and the network nodes (router / switch / firewall)
+            "kind": rng.choice(["computer", "computer", "computer", "server", "printer", "router", "switch", "firewall"])}
     keys = rng.shuffle(list(SW_CLASSES))[: rng.range(1, 4)]
     sw = []
     for k in keys:
@@ -485,7 +572,9 @@ def gen_ops_for(rng: Rng, svcs: List[str], apps: List[str], folders: List[str], 
         return ["sw", "app", name, r]
 
     def api_op():
-        r = rng.below(6)
+        r = rng.below(7)
+        if r == 6:
+            return ["folderset", pick_folder(), rng.choice(["CORRUPT", "CORRUPT", "GOOD", "COMPROMISED"])]
         if r < 2:
             return ["swset", rng.choice(svcs + apps + SYS_SVCS[:2] + SYS_APPS), rng.choice(["GOOD", "COMPROMISED", "OVERWHELMED"])]
         if r < 3:
@@ -501,7 +590,8 @@ def gen_ops_for(rng: Rng, svcs: List[str], apps: List[str], folders: List[str], 
         if r < 6:
             return ["folder", F, rng.choice(ITEM_REQS + ["scan", "scan", "restore", "corrupt"])]
         if r < 11:
-            return ["file", F, pick_file(F), rng.choice(ITEM_REQS + ["scan", "corrupt"])]
+            # both request routes to a file: file_system/folder/F/file/f/… and file_system/file/F/f/…
+            return ["file" if rng.chance(3, 4) else "file2", F, pick_file(F), rng.choice(ITEM_REQS + ["scan", "corrupt"])]
         if r < 12:
             return ["folderdelete", F, pick_file(F)]
         if r < 14:
@@ -518,8 +608,8 @@ def gen_ops_for(rng: Rng, svcs: List[str], apps: List[str], folders: List[str], 
             return ["shutdown"]
         if r < 8:
             return ["startup"]
-        # `reset` with shut_down_duration 0 leaves is_resetting stuck (F-20, property C12's business): not generated here
-        return ["nodereset"] if shut > 0 else ["shutdown"]
+        # `reset` with shut_down_duration 0: the node goes OFF and is powered on again in the same call (after C12's fix of F-20)
+        return ["nodereset"]
 
     weights = {0: (30, 22, 22, 8, 8, 10), 1: (30, 40, 4, 6, 10, 10), 2: (30, 4, 45, 6, 7, 8), 3: (35, 15, 12, 25, 8, 5)}[mode]
     tot = sum(weights)
@@ -836,10 +926,50 @@ def gen_db_case(rng: Rng, max_ops: int = 30) -> dict:
             ["fileset", "database", "database.db", "CORRUPT"], ["sw", "svc", "database-service", "compromise"],
             ["sw", "svc", "database-service", "scan"], ["fsrestfile", "database", "database.db"], ["folder", "database", "restore"],
             ["fsdelfile", "downloads", "database.db"], ["fsdelfolder", "downloads"], ["shutdown"], ["startup"]]
+    # the fix of the database service: its completion runs the restore INSIDE a timestep (`DOp.tickDb`)
+    menu += [["sw", "svc", "database-service", "fix"], ["sw", "svc", "database-service", "fix"], ["tick"], ["tick"],
+             ["sw", "svc", "database-service", "stop"], ["sw", "svc", "database-service", "start"],
+             ["sw", "svc", "ftp-client", "stop"], ["sw", "svc", "ftp-client", "start"],
+             ["fsdelfolder", "database"], ["fsrestfolder", "database"], ["folderset", "database", "CORRUPT"],
+             ["file2", "database", "database.db", "scan"], ["file2", "database", "database.db", "corrupt"],
+             ["fscreatefile", "downloads", "database.db", "0"], ["folder", "database", "scan"]]
     for _ in range(rng.range(5, max_ops)):
         ops.append(list(rng.choice(menu)))
     case["ops"] = ops
     return case
+
+
+def db_fix_cases(durs=(0, 1, 2, 3)) -> List[dict]:
+    """Enumerated timelines around the fix of a database service whose completion restores the backup inside a timestep:
+    fixing duration x {file scanned before?} x {file deleted / folder deleted / nothing} x {node scan or folder scan in flight so
+    that it completes in the very timestep of the restore, one earlier, one later} x {backup healthy or corrupt}."""
+    cases = []
+    for d in durs:
+        need = max(1, d)
+        for scanned in (False, True):
+            for gone in ("none", "file", "folder"):
+                for inflight in ("none", "node", "folder"):
+                    for off in ((0,) if inflight == "none" else (-1, 0, 1)):
+                        for bh in ("GOOD", "CORRUPT"):
+                            sd = max(1, need + off)
+                            ops = [["file", "database", "database.db", "corrupt"]]
+                            if scanned:
+                                ops.append(["file2", "database", "database.db", "scan"])
+                            ops.append(["sw", "svc", "database-service", "fix"])
+                            if inflight == "node":
+                                ops.append(["osscan"])
+                            elif inflight == "folder":
+                                ops.append(["folder", "database", "scan"])
+                            if gone == "file":
+                                ops.append(["fsdelfile", "database", "database.db"])
+                            elif gone == "folder":
+                                ops.append(["fsdelfolder", "database"])
+                            ops += [["tick"]] * (need + 2) + [["sw", "svc", "database-service", "fix"]] + [["tick"]] * (need + 1)
+                            cases.append({"node": {"start": 0, "shut": 0, "scan": sd, "initial": "ON"},
+                                          "sw": [{"cls": "database-service", "fix": d, "health": "GOOD", "aux": None}], "sysfix": {},
+                                          "folders": [{"name": "database", "scan": sd, "restore": 2, "files": []}],
+                                          "db": {"backup_health": bh, "health": "GOOD"}, "ops": ops, "family": "db-fix"})
+    return cases
 
 
 def interrupted_fix_cases(durs=(2, 3, 4)) -> List[dict]:
@@ -881,4 +1011,55 @@ def overlap_scan_cases(durs=(0, 1, 2, 3, 6)) -> List[dict]:
                                       "folders": [{"name": "d0", "scan": df, "restore": 1,
                                                    "files": [{"name": "a.txt", "health": "GOOD"}, {"name": "b.txt", "health": "CORRUPT"}]}],
                                       "ops": ops, "family": "overlap-scan"})
+    return cases
+
+
+# ------------------------------------------------------------------------------------------ lifecycle / power x timed processes
+def lifecycle_timer_cases(durs=(1, 2, 3)) -> List[dict]:
+    """Every timed process of the statement (fix, application install, folder scan, folder restore, whole-node scan; and the
+    service restart the model carries along) x every lifecycle / power disturbance that can hit it x every offset at which the
+    disturbance can arrive x node power durations {0, 1}. Enumerated, not sampled. What the CODE answers (and the model
+    follows, theorem C14_timer_table): a fix counts in every operating state of its service / application (STOPPED, PAUSED,
+    DISABLED, RESTARTING, CLOSED) and freezes only while the node is not ON; an installation counts only while INSTALLING and
+    the node is ON; folder timers count while the node is ON and the folder is not deleted; the node scan while the node is ON."""
+    cases = []
+    svc, app = "dns-server", "database-client"
+    S = lambda r: ["sw", "svc", svc, r]  # noqa: E731
+    A = lambda r: ["sw", "app", app, r]  # noqa: E731
+    power = [[["shutdown"], ["tick"], ["startup"]], [["shutdown"], ["tick"], ["tick"], ["startup"], ["tick"]], [["nodereset"]],
+             [["nodereset"], ["tick"]]]
+    procs = {
+        "fix-service": ([S("compromise"), S("fix")],
+                        [[S("stop")], [S("pause")], [S("disable")], [S("restart")], [S("stop"), ["tick"], S("start")],
+                         [S("pause"), ["tick"], S("resume")], [S("disable"), ["tick"], S("enable"), S("start")],
+                         [S("restart"), ["tick"], S("stop")], [S("fix")]] + power),
+        "fix-application": ([A("compromise"), A("fix")],
+                            [[A("close")], [A("close"), ["appinstall", app]], [A("close"), ["tick"], ["apprun", app]],
+                             [A("close"), ["apprun", app], A("fix")]] + power),
+        "install": ([A("close"), ["appinstall", app]],
+                    [[A("compromise")], [A("close")], [["apprun", app]], [["appinstall", app]], [A("fix")], [A("scan")]] + power),
+        "folder-scan": ([["file", "d0", "a.txt", "corrupt"], ["folder", "d0", "scan"]],
+                        [[["fsdelfolder", "d0"]], [["fsdelfolder", "d0"], ["tick"], ["fsrestfolder", "d0"]], [["folder", "d0", "scan"]],
+                         [["folder", "d0", "corrupt"]], [["fsdelfile", "d0", "a.txt"]], [["folder", "d0", "restore"]]] + power),
+        "folder-restore": ([["folder", "d0", "corrupt"], ["folder", "d0", "restore"]],
+                           [[["fsdelfolder", "d0"]], [["fsdelfolder", "d0"], ["tick"], ["fsrestfolder", "d0"]],
+                            [["folder", "d0", "restore"]], [["fsrestfolder", "d0"]], [["fsdelfile", "d0", "a.txt"]],
+                            [["folder", "d0", "scan"]]] + power),
+        "node-scan": ([S("compromise"), ["file", "d0", "a.txt", "corrupt"], ["osscan"]],
+                      [[["osscan"]], [S("stop")], [["fsdelfolder", "d0"]], [A("close")]] + power),
+        "restart": ([S("restart")], [[S("stop")], [S("disable")], [S("disable"), ["tick"], S("enable")], [S("fix")]] + power),
+    }
+    for name, (start, dists) in procs.items():
+        for d in durs:
+            for pw in (0, 1):
+                for dist in dists:
+                    for k in range(0, d + 1):
+                        ops = [list(x) for x in start] + [["tick"]] * k + [list(x) for x in dist] + [["tick"]] * (d + 3) + \
+                              [["osscan"]] + [["tick"]] * (d + 1)
+                        cases.append({"node": {"start": pw, "shut": pw, "scan": d, "initial": "ON"},
+                                      "sw": [{"cls": svc, "fix": d, "health": "GOOD", "aux": d},
+                                             {"cls": app, "fix": d, "health": "GOOD", "aux": d}], "sysfix": {},
+                                      "folders": [{"name": "d0", "scan": d, "restore": d,
+                                                   "files": [{"name": "a.txt", "health": "GOOD"}, {"name": "b.txt", "health": "GOOD"}]}],
+                                      "ops": ops, "family": "lifecycle-timer:" + name})
     return cases
